@@ -57,6 +57,7 @@ fn forward(m: &RLib, ctx: &mut Ctx) -> Result<(), String> {
     if m.cells.iter().any(|c| c.insts.iter().any(|i| i.o.rot != 0)) {
         ctx.label("rotated instance");
     }
+    crate::gen::rawlib::classify(m, ctx);
     ctx.sample("raw library", || {
         let mut s = format!("{:?}", m);
         crate::engine::clip(&mut s, 1200);
@@ -307,6 +308,16 @@ fn backward_case(src: &mut Src, ctx: &mut Ctx) -> Result<(), String> {
         ctx.nontrivial(hash_of(&format!("{:?}", msg)));
     }
     ctx.label("protobuf -> raw -> protobuf");
+    let polys = || msg.cells.iter().flat_map(|c| c.layout.iter().flat_map(|l| l.shapes.iter()).chain(c.r#abstract.iter().flat_map(|a| a.ports.iter().flat_map(|p| p.shapes.iter()).chain(a.blockages.iter())))).flat_map(|ls| ls.polygons.iter());
+    if polys().any(|p| p.vertices.len() > 3 && p.vertices.first() == p.vertices.last()) {
+        ctx.label("message polygon repeating its first vertex");
+    }
+    if msg.cells.iter().any(|c| c.layout.is_some() && c.r#abstract.is_some()) {
+        ctx.label("message cell with both views");
+    }
+    if msg.cells.iter().any(|c| c.layout.is_none()) {
+        ctx.label("message cell with an abstract only");
+    }
     ctx.sample("protobuf library", || {
         let mut s = format!("{:?}", msg);
         crate::engine::clip(&mut s, 1200);
